@@ -11,7 +11,8 @@ LEVEL_TEXT = ("TLSPin.tla states the pinning rule over certificate/fingerprint t
               "handshake made with tls.MakeConfig directly, through net/http, and through auth.Manager (auth server, "
               "JWKS); sequence cases (pairs and triples of connections in one process to the same server, application data "
               "exchanged so that TLS sessions could be resumed; pins: matching, other letter case, other certificate, none) "
-              "are judged connection by connection with the same formula (history independence); TLC evaluates the "
+              "and sequences on ONE reused tls.Config / http.Client / auth.Manager while the server swaps in forged look-alike "
+              "certificates are judged connection by connection with the same formula (history independence); TLC evaluates the "
               "statement on every observed connection")
 LEVEL_NOTE = ("the statement is 'succeeds only if': a failing connection with a matching pin is DRIFT, not a verdict; SHA-256 "
               "and the TLS stack are trusted; the harness process trusts only the harness CA (SSL_CERT_FILE) so that a "
@@ -79,28 +80,41 @@ def run(ctx):
         c = rec["c"]
         step = bad.get("step", 0)
         o = rec["steps"][step - 1] if step else rec
-        fp = c["steps"][step - 1] if step else c["fp"]
-        earlier = ["%s of %s" % (f["form"], f["of"] or "-") for f in c["steps"][:step - 1]] if step else []
+        if "certs" in c:        # one reused configuration, the server changed its certificate
+            fp = c["fp"]
+            served = c["certs"][step - 1]
+            earlier = ["server presented " + x for x in c["certs"][:step - 1]]
+        else:
+            fp = c["steps"][step - 1] if step else c["fp"]
+            served = c["served"]
+            earlier = ["%s of %s" % (f["form"], f["of"] or "-") for f in c["steps"][:step - 1]] if step else []
+        c = dict(c, served=served)
         ctx.violation({"via": c["via"], "served": c["served"], "tls": c["ver"], "fp_of": fp["of"],
                        "fp_form": fp["form"], "success": o["success"], "step": step, "earlier_pins": earlier,
                        "resumed": o.get("resumed")},
                       "connection via %s to a server presenting %s (%s) SUCCEEDED with fingerprint %r (%s of %s), which is not "
                       "the SHA-256 of the served leaf certificate%s" % (
                           c["via"], c["served"], c["ver"], o["fptext"], fp["form"], fp["of"],
-                          (" - connection %d of a sequence in one process to the same server, earlier pins: %s, TLS session "
-                           "resumed: %s" % (step, earlier, o.get("resumed"))) if step else ""))
+                          (" - connection %d of a sequence in one process to the same server%s, earlier: %s, TLS session "
+                           "resumed: %s" % (step, " on ONE reused configuration" if "certs" in rec["c"] else "", earlier,
+                                            o.get("resumed"))) if step else ""))
     drift = {}
     for dr in tv.tagged("DRIFT"):
         c = recs[dr["l"] - 1]["c"]
         step = dr.get("step", 0)
-        fp = c["steps"][step - 1] if step else c["fp"]
-        k = "%s/%s/%s%s" % (c["via"], c["served"], fp["form"], "/seq" if step else "")
+        if "certs" in c:
+            k = "%s/%s/%s/swap" % (c["via"], c["certs"][step - 1], c["fp"]["form"])
+        else:
+            fp = c["steps"][step - 1] if step else c["fp"]
+            k = "%s/%s/%s%s" % (c["via"], c["served"], fp["form"], "/seq" if step else "")
         drift[k] = drift.get(k, 0) + 1
     phases["tlc_trace_validation"] = round(time.time() - t0, 1)
     # one entry per connection: (case, fingerprint token, observation)
     conns = []
     for x in recs:
-        if "steps" in x:
+        if "certs" in x["c"]:
+            conns += [(dict(x["c"], served=x["c"]["certs"][i]), x["c"]["fp"], o) for i, o in enumerate(x["steps"])]
+        elif "steps" in x:
             conns += [(x["c"], x["c"]["steps"][i], o) for i, o in enumerate(x["steps"])]
         else:
             conns.append((x["c"], x["c"]["fp"], x))
@@ -109,6 +123,7 @@ def run(ctx):
     ctx.set("traces_validated_against_impl", len(recs))
     ctx.set("connections_judged", len(conns))
     ctx.set("sequence_cases", sum(1 for x in recs if "steps" in x))
+    ctx.set("reused_configuration_sequences", sum(1 for x in recs if "certs" in x["c"]))
     ctx.set("sequence_connections_after_a_successful_one",
             sum(1 for x in recs if "steps" in x for i, o in enumerate(x["steps"]) if any(p["success"] for p in x["steps"][:i])))
     ctx.set("connections_resumed_tls_session", sum(1 for _, _, o in conns if o.get("resumed")))
@@ -131,7 +146,7 @@ def run(ctx):
             ctx.sample({k: x[k] for k in ("c", "success", "fptext", "err")})
             break
     for x in recs:
-        if "steps" in x and len(x["steps"]) == 3 and x["steps"][0]["success"] and x["c"]["ver"] == "tls13":
+        if "steps" in x and "certs" not in x["c"] and len(x["steps"]) == 3 and x["steps"][0]["success"] and x["c"]["ver"] == "tls13":
             ctx.sample({"sequence": x["c"], "success": [o["success"] for o in x["steps"]],
                         "resumed": [o.get("resumed") for o in x["steps"]]})
             break
